@@ -46,8 +46,8 @@ structure GS where
   labels : List Int := []
   todo : List Nat := []
   loops : Nat := 0
-  fsName : Bytes := [35, 114, 111, 111, 116, 95, 102, 105, 108, 101, 95, 99, 111, 110, 116, 101, 120, 116]  -- "#root_file_context"
-  fsLine : Int := 0
+  fsName : Bytes := ConstGen.rootFsName     -- initial file context, regenerated from gen.cpp
+  fsLine : Int := ConstGen.rootFsLine
   deriving Repr, Inhabited
 
 def bTempName : Bytes := [84, 101, 109, 112, 111, 114, 97, 114, 121, 32, 86, 97, 114, 105, 97, 98, 108, 101]  -- "Temporary Variable"
